@@ -136,6 +136,8 @@ pub fn prop() -> HistProp {
     w.ecfg = 3;
     w.rewire = 2;
     w.whitelist = 2;
+    // the pauser role changes hands: to a trading account and back (holding a role is not being whitelisted)
+    w.handover = 2;
     HistProp {
         id: "C12",
         level: "exploration",
